@@ -14,6 +14,10 @@ class Unknown(Exception):
     pass
 
 
+class FieldAccess(Exception):
+    """The operator reads package fields itself instead of deriving from the one comparison."""
+
+
 class _Return(Exception):
     def __init__(self, v):
         self.v = v
@@ -143,6 +147,9 @@ class OpInterp(object):
                 if isinstance(e.ops[0], ast.Is):
                     return False
             return _cmp(e.ops[0], self.ev(l, env), self.ev(r, env))
+        if any(isinstance(n, ast.Attribute) and isinstance(n.value, ast.Name) and env.get(n.value.id) in ("A", "B") and n.attr in ("epoch", "version", "release", "nvr", "nvra", "package", "evr")
+               for n in ast.walk(e)):
+            raise FieldAccess(short(e, 90))
         raise Unknown("expression %s" % short(e))
 
 
@@ -168,6 +175,10 @@ def r1_operator_coherence(cx):
             except _Raised:
                 cx.bad(cls, "%s does not raise for same-named packages" % name, construct="%s with compare=%d raises" % (name, s))
                 continue
+            except FieldAccess as fa:
+                cx.bad(m.get("InstalledRpm." + name), "%s is derived from rpm_version_compare like the other operators; comparing the version fields textually disagrees with them for spellings RPM treats as equal (leading zeros, separators)" % name,
+                       construct="%s evaluates %s" % (name, fa))
+                break
             except Unknown as u:
                 cx.unknown(m.get("InstalledRpm." + name), "abstract evaluation of %s cannot interpret: %s" % (name, u))
                 break
@@ -309,6 +320,31 @@ def r3_lookups(cx):
     cx.require(al.get("oldest") == "get_min", c, "oldest is get_min", construct="oldest = %s" % al.get("oldest"))
 
 
+def r4_normalisation(cx):
+    cx.rule("C13.R4", "input normalisation keeps one element per character: a non-ASCII character becomes a separator, it is not dropped", floor=2)
+    m = cx.repo.module(RV)
+    fn = m.func("_rpm_vercmp", "C13.R4")
+    ps = params(fn)
+    for p in ps[:2]:
+        defs = [a for a in walk_body(fn.body) if isinstance(a, ast.Assign) and U(a.targets[0]) == p]
+        comp = None
+        for a in defs:
+            for n in ast.walk(a.value):
+                if isinstance(n, (ast.ListComp, ast.GeneratorExp)) and U(n.generators[0].iter) == p:
+                    comp = (a, n)
+        if comp is None:
+            cx.unknown(fn, "cannot find the character-wise normalisation of '%s'" % p)
+            continue
+        a, n = comp
+        ok = not n.generators[0].ifs and isinstance(n.elt, ast.IfExp)
+        sep = None
+        if ok:
+            sep = n.elt.orelse.value if isinstance(n.elt.orelse, ast.Constant) else None
+            ok = U(n.elt.body) == U(n.generators[0].target) and isinstance(sep, str) and len(sep) == 1 and not sep.isalnum() and sep not in "~^" and "ord(" in U(n.elt.test)
+        cx.require(ok, a, "every character of '%s' yields one element; non-ASCII ones are replaced by a separator (rpm treats them as separators; dropping them would glue the neighbouring segments together)" % p,
+                   construct=short(a, 120))
+
+
 def run(cx):
     cx.extra["explanation"] = ("C13: abstract interpretation over the sign domain {-,0,+}: the six rich comparison methods of InstalledRpm against the sign of rpm_version_compare (18 obligations), "
                                "rpm_version_compare against the signs of the epoch/version/release comparisons (27 obligations, exhaustive), max/min wiring of newest/oldest.")
@@ -318,3 +354,4 @@ def run(cx):
     cx.guard(r1_operator_coherence)
     cx.guard(r2_field_order)
     cx.guard(r3_lookups)
+    cx.guard(r4_normalisation)
